@@ -2,6 +2,7 @@ package gosym
 
 import (
 	"fmt"
+	"go/types"
 	"sort"
 	"sync"
 	"time"
@@ -37,7 +38,18 @@ func RunPath(p *Program, s *smt.Solver, entry *ssa.Function, prefix []Decision, 
 		m.settle()
 		m.baseG = len(m.gs)
 		m.cur.points = 0 // points passed during package initialisation are not seen by the native replay
-		m.call(entry, nil, nil, 0)
+		var args []Value
+		for _, prm := range entry.Params {
+			// e.g. func TestX(t *testing.T): a pointer to a zero value
+			if pt, ok := prm.Type().Underlying().(*types.Pointer); ok {
+				cell := new(Value)
+				*cell = m.zero(pt.Elem())
+				args = append(args, cell)
+			} else {
+				args = append(args, m.zero(prm.Type()))
+			}
+		}
+		m.call(entry, args, nil, 0)
 	})
 	g0.resume <- true
 	<-m.doneCh
